@@ -59,24 +59,25 @@ theorem failover_success (down : Host → Bool) (plan : List Host) (pre rest : L
   have := go_failover_success down pre rest { plan := plan, idem := true } rfl rfl hpre hup
   simpa [run] using this.1
 
-/-- **terminates (partial)** — no infinite same-host resend loop, *provided* a host that has just
-answered is still usable for the immediately following attempt. Without the proviso the code
-spins (see `spin_witness`). -/
-theorem terminates_partial (down : Nat → Host → Bool) (idem : Bool) (plan : List Host) (script : List Outcome)
-    (hstable : ∀ n h, down n h = false → down (n + 1) h = false) :
-    (run down idem plan script).diverged = false := by
-  apply go_no_spin down script .next _ hstable
-  · intro h; cases h
-  · rfl
+/-- **terminates** — a request cannot stay unanswered: for every way hosts go down between
+attempts, once `plan + 1` outcomes (+ one per re-execution after a re-prepare) have arrived, none
+of them "silent", the request is done. (Before the repair recorded in known_findings.json the
+same-host resend looped forever when its Send failed; the model then had a `diverged` state.) -/
+theorem terminates (down : Nat → Host → Bool) (idem : Bool) (plan : List Host) (script : List Outcome)
+    (hns : noSilent script = true) (hlen : plan.length + 1 + countReprepOk script ≤ script.length) :
+    (run down idem plan script).done = true := by
+  apply go_terminates down script .next _ hns
+  simpa using hlen
 
-/-- the excluded point: read timeout retried on the same host while that host has been removed
-in between — `executeInternal(false)` repeats the failing Send forever (DESIGN §7 item 12). -/
-theorem spin_witness :
-    (run (fun n h => n = 1 ∧ h = 0) true [0, 1] [.readTimeout 2 2 false]).diverged = true := by
-  simp [run, go, pick, skipDown, react, Retry.decide, onReadTimeout]
+/-- the once-failing schedule: read timeout retried on the same host while that host has been
+removed in between — the request now moves on to the next host and is answered -/
+theorem samehost_removed_moves_on :
+    let r := run (fun n h => n = 1 ∧ h = 0) true [0, 1] [.readTimeout 2 2 false, .success]
+    r.attempts = [0, 1] ∧ r.reply = some (.result 1) := by
+  simp [run, go, pick, pickNext, skipDown, react, Retry.decide, onReadTimeout]
 
 /-- non-vacuity: three hosts, the middle one down, overloaded then connection loss then success -/
 example : (run (fun _ h => h = 1) true [0, 1, 2, 3] [.errResp "ErrorCodeOverloaded", .connLost, .success]).attempts = [0, 2, 3] := by
-  simp [run, go, pick, skipDown, react, Retry.decide, onErrorResponse]
+  simp [run, go, pick, pickNext, skipDown, react, Retry.decide, onErrorResponse]
 
 end CqlVerif.C05
